@@ -100,6 +100,8 @@ class StateTriggerDecorator(TriggerDecorator, ExpressionDecorator, AutoKwargsDec
 
     last_func_args: dict[str, Any]
     last_new_vars: dict[str, Any]
+    hold_func_args: dict[str, Any]
+    hold_new_vars: dict[str, Any]
 
     async def validate(self) -> None:
         """Validate and normalize arguments."""
@@ -192,11 +194,15 @@ class StateTriggerDecorator(TriggerDecorator, ExpressionDecorator, AutoKwargsDec
                     else:
                         _LOGGER.debug("state_hold started, %s", self)
                         self.true_entered_at = now
+                        self.hold_func_args = self.last_func_args
+                        self.hold_new_vars = self.last_new_vars
 
             if state_hold_true_passed:
                 self.true_entered_at = None
+                if self.state_hold is None:
+                    self.hold_func_args, self.hold_new_vars = self.last_func_args, self.last_new_vars
                 await self.dispatch(
-                    DispatchData(self.last_func_args, trigger_context={"new_vars": self.last_new_vars})
+                    DispatchData(self.hold_func_args, trigger_context={"new_vars": self.hold_new_vars})
                 )
                 self.__test_handshake__ = None
         else:
@@ -215,7 +221,7 @@ class StateTriggerDecorator(TriggerDecorator, ExpressionDecorator, AutoKwargsDec
         if true_duration >= self.state_hold:
             self.true_entered_at = None
             await self.dispatch(
-                DispatchData(self.last_func_args, trigger_context={"new_vars": self.last_new_vars})
+                DispatchData(self.hold_func_args, trigger_context={"new_vars": self.hold_new_vars})
             )
 
     async def _cycle(self) -> None:
